@@ -4,9 +4,9 @@ From Coq Require Import ZArith List.
 Import ListNotations.
 Open Scope Z_scope.
 
-(* fragment g_get_broadcast_shape from sparse/numba_backend/_umath.py:_get_broadcast_shape selector=None srchash=b7f88e421e0b0c8b *)
+(* fragment g_get_broadcast_shape from sparse/numba_backend/_umath.py:_get_broadcast_shape selector=None srchash=6a86b63404ad3ae4 *)
 Definition g_get_broadcast_shape (shape1 : pyv) (shape2 : pyv) (is_result : pyv) (all_ok : pyv) (zipped : pyv) : res pyv :=
-t1_ <- (t2_ <- Ok all_ok ;; py_not t2_) ;;
+t1_ <- (t3_ <- (t6_ <- Ok is_result ;; if cond t6_ then (t4_ <- (py_len shape1) ;; t5_ <- (py_len shape2) ;; py_gt t4_ t5_) else Ok t6_) ;; if cond t3_ then Ok t3_ else (t2_ <- Ok all_ok ;; py_not t2_)) ;;
 if cond t1_ then (
 Raise ValueError
 ) else (
